@@ -298,6 +298,9 @@ class TrackedDict(TrackedValue, dict):
     pop = tracked_method(dict.pop)
     popitem = tracked_method(dict.popitem)
     clear = tracked_method(dict.clear)
+    def __ior__(self, other):
+        self.update(other)
+        return self
     def get_untracked(self):
         return {key: val.get_untracked() if isinstance(val, TrackedValue) else val
                 for key, val in self.items()}
@@ -318,6 +321,10 @@ class TrackedList(TrackedValue, list):
     reverse = tracked_method(list.reverse)
     sort = tracked_method(list.sort)
     clear = tracked_method(list.clear)
+    def __iadd__(self, items):
+        self.extend(items)
+        return self
+    __imul__ = tracked_method(list.__imul__)
     def get_untracked(self):
         return [val.get_untracked() if isinstance(val, TrackedValue) else val for val in self]
 
